@@ -1782,6 +1782,10 @@ impl AModel {
     fn is_float(&self, x: usize) -> bool {
         matches!(self.vars[x], AVar::F(..))
     }
+    /// the witness value of variable `x`
+    fn wit(&self, x: usize) -> f64 {
+        match self.vars[x] { AVar::F(_, _, w) => w, AVar::I(_, _, w) => w as f64 }
+    }
     /// build the selen model; returns the variable handles
     fn build(&self) -> (Model, Vec<sp::VarId>) {
         let cfg = sp::config::SolverConfig::default().with_float_precision(self.digits).with_timeout_ms(800);
@@ -1921,7 +1925,10 @@ fn api_run(out: &mut Out, am: &AModel) {
                 }
                 _ => false,
             });
-            let tag = if again { "root-lp" } else if mixed_eq { "float-eq-int-var-rounding" } else if inexact { "float-eq-inexact-witness" } else { "-" };
+            // `x.lt(y)` between a float and an integer variable is lowered to the INTEGER row
+            // x - y <= -1 (strictness of one unit): points with 0 < y - x < 1 are lost
+            let mixed_strict = am.rows.iter().any(|r| matches!(r, ARow::VLt(x, y) if am.is_float(*x) != am.is_float(*y) && (am.wit(*y) - am.wit(*x)) < 1.0));
+            let tag = if again { "root-lp" } else if mixed_eq { "float-eq-int-var-rounding" } else if mixed_strict { "mixed-strict-cmp-int-lowered" } else if inexact { "float-eq-inexact-witness" } else { "-" };
             out.fail(l, "C07", tag, "solve() = NoSolution although the witness point satisfies every row with margin".to_string());
         }
         Err(e) => {
